@@ -6,7 +6,7 @@ Spec    spec/Compress.tla.  Encoder side PackAny (Allowed / Emit1): per name any
         ValidCompressed(bytesC, bytesU) = JudgeStreams over the part streams of an independent reader (StreamOf: Framing!RRAt, DecName,
         RDATA name positions from WireRR!Layout).  The property does not ask for maximal compression: PackImpl (CompressLen.tla, the
         model of packDomainName) is one allowed strategy.
-MC      MC_Compress, MaxOff in {4, 6, 9}: every step of PackImpl is allowed by PackAny (refinement; the mirror PNC = CompressLen!PN);
+MC      MC_Compress, MaxOff in {4, 6, 9}: every step of PackImpl is allowed by PackAny (refinement; the mirror PNC = CompressLen!PN); Chains (see CHAIN);
         every PackAny run decodes to the plan's names, is never longer (unless a pointer replaces a root octet: AMBIG), has only valid
         pointers and is accepted by the judge; Mode "dev": a run with one forbidden choice that still decodes is rejected by the judge.
 GEN     Gen_Compress (vectors checked against the spec itself: StreamOf(EncMsg(m)) finds WireRR!PlanMsg(m); hand-compressed octets are
@@ -14,8 +14,26 @@ GEN     Gen_Compress (vectors checked against the spec itself: StreamOf(EncMsg(m
         Trace_Compress.  Modes: family (x, a.x, A.x, b.a.x, "a\\.x", \\097.x under the root and z.Z., 1-2 questions, NS + MX|SRV|RP),
         multiq (2-3 questions), first (per type and RDATA name field: a suffix FIRST seen inside that field -- HIP rendezvous
         servers, SVCB target, RRSIG signer, NSEC next, SRV target ... -- then needed by later owner / NS / MX / CNAME names), types (all 33 types with a name in RDATA: name = / one label below an earlier owner), pad (a TXT record
-        puts a first occurrence at 16382..16385).  Reverse direction in the same run: the spec's hand-compressed octets (pointer from
-        every RDATA name to the question name) -> real Unpack must accept and read the vector's message.
+        puts a first occurrence at 16382..16385), large (messages with MANY records, g = sub-family: runs = one RRset / address pool, n
+        consecutive records with one owner (the question name or not), two owners in turn, one owner in two letter cases, A / NS to the
+        owner itself / MX below the owner, n = 2, 126..129, 300 (thorough 1..5, 120..135, 255..257, 300, 400, 1000) -- what ACCUMULATES
+        over a run; nest = names of 2..k labels, each the previous one with a label in front, then the longest again, k up to 127 (the
+        most labels a name can have: the deepest chain a packer pointing at first occurrences builds); bulk = 258..1500 records under a
+        common 234-octet suffix: uncompressed length 65535 / 65536 (thorough 65530..65541) and 100 000 - 380 000 octets, compressed below
+        32 000 -- the reference packing then goes through a caller buffer of the specification's LenMsg + 1 if Pack() refuses it).
+        Reverse direction in the same run: the spec's hand-compressed octets (pointer from every RDATA name to the question name) ->
+        real Unpack must accept and read the vector's message.
+CHAIN   Compress!JudgeStreamsH = JudgeStreams + the chain clause: no name is read through more than MaxPtrHops = MaxName \div 2 = 127
+        pointers (a name has at most 127 labels and a pointer of a packer that points at first occurrences is followed by a label:
+        MC_Compress invariant Chains shows that Compress!Hops, read off the stream hints, IS the number of pointers Names!DecName follows,
+        that PackImpl never needs more hops than the name has labels and never points at a pointer).  Every single pointer of a long
+        pointer-to-pointer chain is valid (AMBIG stays); the chain as a whole is "pointer-chain-too-deep".  Every event of every stage
+        is judged with it.
+OWN     "decode to exactly the same message" / "compressed names are still accepted on input" said of the library's own reader: every
+        compressed form an independent reader could read is given to Msg.Unpack: it must be accepted and, for a vector, read as the
+        vector's message (the specification's value, as in the reverse direction above).  Random messages: a refusal only, and only when
+        the uncompressed octets of the same message are accepted.  Keys compress/own-output-rejected:<mode>:<chain-upto-126|chain-127|chain-over-127>,
+        own-output-misread|own-output-panic:<mode>.
 SEQ     every packing with compression (replay and record alike) is preceded, on the same goroutine (GOMAXPROCS 1, repeated twice
         per kind), by the packing of an UNPACKABLE relative of the message that fails late -- the same records in another order under
         a longer question name, then a 64-octet label / a 256-octet name / a 300-octet string, or RCODE 16 without OPT -- so that
@@ -24,6 +42,14 @@ SEQ     every packing with compression (replay and record alike) is preceded, on
 BUF     for every message PackBuffer (Compress = true) is also driven with caller buffers of every size from the compressed length - 2
         to the uncompressed length + 2 (sampled beyond 96 sizes: the first 72, a stride, the last 9): the result must be Pack()'s octets
         (the ones TLC judges); an error is tolerated only below the compressed length.  Keys compress/packbuffer-error|differs-from-pack|panic:<mode>.
+DENSE   harness `compress dense` (4 processes x 1500 messages; thorough 8 x 6000): messages holding as many DIFFERENT names of one
+        presentation length as 64 kB take (single labels of 4..9 letters under the root: questions, owners of A records, NS targets,
+        mixed), about 4300 names and 4.6 million (name filed below 16384, different name looked up later) pairs per message, 2.7 * 10^10
+        pairs per quick run: six times the birthday bound of ANY 32-bit digest of a name, whatever the digest.  No name of such a message
+        is a suffix of another: a packer that keeps names apart emits the same octets with and without compression.  Identical packings
+        are counted; a message whose packings DIFFER is shrunk (records dropped while the real packer still gives two different
+        packings) and goes, like every event, through packBoth and the judge in TLC (transparency clause); a few whole small messages
+        per process are judged as they are, and so are the rare messages in which a name repeats (a pointer that is allowed).
 TV      harness `compress record`: random messages from the record zoo (about 85 types x 16 owner families, mixed case, escapes),
         small (1-12 records: also walked by TLC itself, walker cross-check) and big (150-600 records, about half beyond 16384 octets even compressed):
         part streams -> Trace_Compress (JudgeStreams with MaxOff = 16384).  Informational: len(bytesC) against PackImpl over the plan
@@ -33,7 +59,10 @@ Ill-formed streams, a walker that disagrees with TLC's own walk, judges that dis
 
 Finding keys: compress/<clause>:<question|owner|rdata:TYPE>  (clauses: not-transparent, longer, header-differs, pointer-when-compress-off,
         pointer-in-uncompressible-rdata, pointer-target-beyond-limit, pointer-not-backwards, pointer-not-to-a-name-suffix, name-invalid),
-        compress/compressed-unreadable:<mode>, compress/pack-error:<mode> (mode = family | multiq | types | pad | zoo), compress/input-rejected|input-misread|input-panic:<TYPE>.
+        pointer-chain-too-deep:<where>, compress/compressed-unreadable:<mode>, compress/pack-error:<mode> (mode = family | multiq | types | first | pad |
+        runs | nest | bulk | dense | zoo), compress/own-output-*:<mode>, compress/input-rejected|input-misread|input-panic:<TYPE>.
+Known finding (known-findings.d/C04.txt): compress/own-output-rejected:nest:chain-127 -- nested names up to 127 labels, the longest twice:
+        Pack() builds a valid chain of 127 pointers, UnpackDomainName gives up after 126.
 
 Mutants (checks/mutants/C04/*.diff; each `VERIF_REPO=/tmp/comp-x bin/check C04 quick` exits 1), stage that catches each (quick tier):
   lowercase-key.diff        compression-map key lower-cased                 -> replay family / multiq / types + TV small and big:
@@ -49,7 +78,16 @@ Mutants (checks/mutants/C04/*.diff; each `VERIF_REPO=/tmp/comp-x bin/check C04 q
                             (types variant 3: the pointer replaces a 25-octet label at the very end of the message)
   hip-names-relative-offsets.diff  packDataDomainNames registers suffixes at field-relative offsets (seed C04-11) -> replay first (type HIP, field
                             RendezvousServers) -> Trace_Compress compress/not-transparent:owner
-Non-vacuity of MC_Compress (run by hand, each invariant must be violated): NoPointerEver, NoLimitCrossed, AlwaysImpl, NoDeviationDecodes.
+  digest-keyed-map.diff     internal compression map keyed by FNV-1a-32 + length of the suffix, hits not verified (seed C04-13) -> DENSE: two
+                            different equal-length names collide in some message (about 6 expected per quick run), the shrunk message (two
+                            questions) -> Trace_Compress compress/not-transparent:question|owner|rdata:NS
+  rrset-owner-pointer-chain.diff  packHeader points an owner equal to the previous one at the previous owner FIELD (seed C04-14): a pointer to a
+                            pointer to a pointer ... -> replay large/runs (n >= 127) -> Trace_Compress compress/pointer-chain-too-deep:owner (CHAIN),
+                            and compress/own-output-rejected:runs:chain-127|chain-over-127 (OWN)
+  refuse-large-uncompressed.diff  ErrBuf instead of allocating more than 65536 octets, tested on the UNCOMPRESSED length (seed C04-15)
+                            -> replay large/bulk: reference through a caller buffer, then compress/pack-error:bulk
+Non-vacuity of MC_Compress (run by hand, each invariant must be violated): NoPointerEver, NoLimitCrossed, AlwaysImpl, NoDeviationDecodes,
+        NoChain, NoDegenerate.
 """
 import os, json
 import vp
@@ -114,6 +152,8 @@ def gen(ctx, binp, lay, names, mode, tier, nshards, shard):
                            consts={"CMode": '"%s"' % mode, "Tier": tier, "CShard": shard, "CNShards": nshards})
     vecs = os.path.join(r.dir, "vectors.ndjson")
     if not os.path.exists(vecs):
+        if mode == "large" and nshards > 1:     # few cases over many shards (the total is in the notes: vectors_per_mode)
+            return
         raise vp.Infra("Gen_Compress mode %s produced no vectors" % mode)
     ev = os.path.join(ctx.out, "ev-%s-%d.ndjson" % (mode, shard))
     s = ctx.run_json(binp, ["replay", lay, vecs, ev], timeout=3000)
@@ -125,6 +165,43 @@ def gen(ctx, binp, lay, names, mode, tier, nshards, shard):
     for e, key in judge(ctx, ev, names, "%s/%d" % (mode, shard), small=20000 if mode == "pad" else SMALL):
         ctx.candidate(key, "packed with Compress = true against Compress = false: the specification's judge says " + key.split("/")[1],
                       {"event": brief(e), "mode": mode, "tier": tier})
+
+
+LARGE = ("runs", "nest", "bulk")       # the sub-families of Gen_Compress mode "large" (the g of their vectors)
+
+
+def regen(ctx, g, v):
+    """One vector again from the specification (large vectors are not carried in findings)."""
+    mode = "large" if g in LARGE else g
+    consts = {"CMode": '"%s"' % mode, "Tier": 1, "CShard": 0, "CNShards": 1}
+    if mode == "large":         # the shard function of Gen_Compress!CInit singles the case out
+        c = list(v) + [0, 0]
+        consts.update({"CNShards": 1000003, "CShard": (c[0] + 3 * c[1] + 7 * c[2] + 13 * c[3]) % 1000003})
+    r, vecs = ctx.tlc_vectors("Gen_Compress", workers=1, xmx="3g", timeout=3000, count=False, consts=consts)
+    vecs = [x for x in vecs if x["v"] == v and x["g"] == g]
+    return vecs[0] if vecs else None
+
+
+def dense(ctx, binp, lay, names, nproc, nmsgs):
+    """DENSE stage: harness `compress dense` in nproc processes, their events judged in one Trace_Compress run."""
+    def one(k):
+        ev = os.path.join(ctx.out, "ev-dense-%d.ndjson" % k)
+        s = ctx.run_json(binp, ["dense", lay, ev, str(nmsgs)], env={"VERIF_SEED": str(ctx.seed * 1000 + 500 + k)}, timeout=3000)
+        d = (s.get("notes") or {}).pop("dense", {})
+        vp.absorb(ctx, s, traces=False)
+        with vp._lock:
+            tot = ctx.notes.setdefault("dense", {})
+            for kk, vv in d.items():
+                tot[kk] = tot.get(kk, 0) + vv
+        return ev
+    files = vp.parallel([lambda k=k: one(k) for k in range(nproc)], maxpar=4)
+    merged = os.path.join(ctx.out, "ev-dense.ndjson")
+    with open(merged, "w") as f:
+        for p in files:
+            f.write(open(p).read())
+    for e, key in judge(ctx, merged, names, "dense"):
+        ctx.candidate(key, "dense message (thousands of different names of one length; shrunk while the two packings differ): "
+                      "the specification's judge says " + key.split("/")[1], {"event": brief(e)})
 
 
 def rec(ctx, binp, lay, names, n, big, k):
@@ -145,13 +222,11 @@ def reexecute(ctx, binp, lay, names, cand):
     tag = str(abs(hash(cand["key"])) % 10 ** 8)
     if "event" in case:
         e = case["event"]
-        if e.get("hasmsg") and "msg" not in e:      # big vector (pad mode): regenerate it
-            r, vecs = ctx.tlc_vectors("Gen_Compress", workers=1, xmx="3g", timeout=3000, count=False,
-                                      consts={"CMode": '"%s"' % case["mode"], "Tier": 1, "CShard": 0, "CNShards": 1})
-            vecs = [x for x in vecs if x["v"] == e["v"]]
-            if not vecs:
+        if e.get("hasmsg") and "msg" not in e:      # big vector (pad, large): regenerate it
+            vec = regen(ctx, e["g"], e["v"])
+            if vec is None:
                 return None
-            e = dict(e, msg=vecs[0]["msg"])
+            e = dict(e, msg=vec["msg"])
         src, dst = os.path.join(ctx.out, "re-in-%s.ndjson" % tag), os.path.join(ctx.out, "re-out-%s.ndjson" % tag)
         full = dict({"bytesC": [], "bytesU": [], "sc": [], "su": [], "implen": -1, "ddd": [], "key": "", "hasmsg": False}, **e)
         vp.write_ndjson(src, [full])
@@ -159,7 +234,11 @@ def reexecute(ctx, binp, lay, names, cand):
         if any(m["key"] == cand["key"] for m in s["mismatches"]):
             return True
         return any(k == cand["key"] for _, k in judge(ctx, dst, names, "reexec", notes=False))
-    # harness-side findings carry the vector
+    # harness-side findings carry the vector (a large one: which one)
+    if case.get("regen"):
+        case = regen(ctx, case["g"], case["v"])
+        if case is None:
+            return None
     p = os.path.join(ctx.out, "re-%s.ndjson" % tag)
     vp.write_ndjson(p, [case])
     s = ctx.run_json(binp, ["replay", lay, p, os.path.join(ctx.out, "re-ev-%s.ndjson" % tag)])
@@ -184,12 +263,15 @@ def run(ctx):
         jobs = [lambda: mc(ctx, 0, 2)]
         fam = 900
         jobs += [lambda sh=sh: gen(ctx, binp, lay, names, "family", 0, fam, sh) for sh in ((ctx.seed * 7) % fam, (ctx.seed * 7 + 450) % fam)]
+        # the long jobs first (8 at a time)
+        jobs += [lambda sh=sh: gen(ctx, binp, lay, names, "large", 0, 4, sh) for sh in range(4)]
+        jobs += [lambda: dense(ctx, binp, lay, names, 4, 1500)]
+        jobs += [lambda k=k: rec(ctx, binp, lay, names, 8, True, 10 + k) for k in range(3)]
         jobs += [lambda: gen(ctx, binp, lay, names, "multiq", 0, 8, ctx.seed % 8),
                  lambda: gen(ctx, binp, lay, names, "types", 0, 1, 0),
                  lambda: gen(ctx, binp, lay, names, "first", 0, 1, 0),
                  lambda: gen(ctx, binp, lay, names, "pad", 0, 1, 0)]
         jobs += [lambda k=k: rec(ctx, binp, lay, names, 300, False, k) for k in range(2)]
-        jobs += [lambda k=k: rec(ctx, binp, lay, names, 8, True, 10 + k) for k in range(3)]
     else:
         jobs = [lambda: mc(ctx, 1, 3)]
         fam = 720
@@ -198,6 +280,8 @@ def run(ctx):
         jobs += [lambda: gen(ctx, binp, lay, names, "types", 1, 1, 0),
                  lambda: gen(ctx, binp, lay, names, "first", 1, 1, 0),
                  lambda: gen(ctx, binp, lay, names, "pad", 1, 1, 0)]
+        jobs += [lambda sh=sh: gen(ctx, binp, lay, names, "large", 1, 16, sh) for sh in range(16)]
+        jobs += [lambda: dense(ctx, binp, lay, names, 8, 6000)]
         jobs += [lambda k=k: rec(ctx, binp, lay, names, 2500, False, k) for k in range(4)]
         jobs += [lambda k=k: rec(ctx, binp, lay, names, 40, True, 10 + k) for k in range(8)]
     vp.parallel(jobs, maxpar=8)
@@ -210,10 +294,19 @@ def run(ctx):
         "RDATA that runs to its end under the RFC layout (strings, bitmaps, options, SvcParams, opaque data) is compared octet for octet "
         "and not searched for names: a pointer emitted there shows as a transparency failure",
         "maximal compression is not required: PackImpl deviations are informational",
+        "'decode' is said of decoders that follow a bounded number of pointers per name: at most 127 (the number of labels a name can have; "
+        "spec/Framing.tla uses the same bound for input) -- and of the library's own Msg.Unpack, which must accept every compressed form "
+        "Pack() produces and read it as the message",
+        "messages whose uncompressed length exceeds 65535 octets while a compressed form fits are messages of the statement ('any message'); "
+        "their uncompressed reference packing is taken through a caller buffer of the specification's length + 1 when Pack() refuses it",
+        "dense messages whose two packings are the same octets are counted, not sent to TLC: identical octets are the same message under "
+        "every reader, and that uncompressed packings are pointer-free is judged on every other event",
     ]
     return ctx.finish(rule="vectors: name families with shared suffixes, case and escape variants (sampled by shard), multiple questions, every type "
-                      "with a name field x {equal to, one label below} an earlier owner, first occurrences at 16382..16385; events: random zoo "
-                      "messages, small and 150-600 records. distinct_nontrivial = messages the library actually compressed",
+                      "with a name field x {equal to, one label below} an earlier owner, first occurrences at 16382..16385, runs of up to 300 (1000) "
+                      "records with one owner, nested names up to 127 labels, bulk messages around and beyond 65535 octets uncompressed; events: "
+                      "random zoo messages, small and 150-600 records; dense messages (6000 x ~4300 different equal-length names, shrunk when the "
+                      "packings differ). distinct_nontrivial = messages the library actually compressed",
                       confirm=lambda c: reexecute(ctx, binp, lay, names, c))
 
 
